@@ -142,6 +142,8 @@ COMBINATORS = {
     "result::Result::<T, E>::or_else": (RESULT, {"Ok": ("keep", RESULT, "Ok"), "Err": ("call",)}),
     "bool::<impl bool>::then": ("bool", {"true": ("wrapcall0", OPTION, "Some"), "false": ("unit", OPTION, "None")}),
     "option::Option::<T>::map_or": (OPTION, {"Some": ("call",), "None": ("default",)}),
+    "option::Option::<T>::map_or_else": (OPTION, {"Some": ("call",), "None": ("call0@1",)}),
+    "result::Result::<T, E>::map_or_else": (RESULT, {"Ok": ("call",), "Err": ("call@1",)}),
     "option::Option::<T>::is_some_and": (OPTION, {"Some": ("call",), "None": ("false",)}),
     "option::Option::<T>::is_none_or": (OPTION, {"Some": ("call",), "None": ("true",)}),
     "result::Result::<T, E>::is_ok_and": (RESULT, {"Ok": ("call",), "Err": ("false",)}),
@@ -174,6 +176,24 @@ def _closure_def(blocks, op):
     return found
 
 
+def _variant_ctor(prog, fdef):
+    """(adt, variant, variant index, field names) when the fn item is a tuple-variant constructor"""
+    path = fdef[1]
+    std = {"std::result::Result::Ok": (RESULT, "Ok", 0), "std::result::Result::Err": (RESULT, "Err", 1), "std::option::Option::Some": (OPTION, "Some", 1),
+           "core::result::Result::Ok": (RESULT, "Ok", 0), "core::result::Result::Err": (RESULT, "Err", 1), "core::option::Option::Some": (OPTION, "Some", 1)}
+    if path in std:
+        en, var, vi = std[path]
+        return en, var, vi, ["0"]
+    if "::" in path:
+        adt, var = path.rsplit("::", 1)
+        a = getattr(prog, "adts", {}).get(adt)
+        if a is not None:
+            for vi, v in enumerate(a["variants"]):
+                if v["name"] == var and v["fields"] and all(str(x["name"]).isdigit() for x in v["fields"]):
+                    return adt, var, vi, [str(x["name"]) for x in v["fields"]]
+    return None
+
+
 def expand_combinators(prog, d):
     """rewrites r.map(f) / o.and_then(f) / ... into the match they stand for, with a direct call of the closure (which
     the inliner then splices in).  returns True when something changed."""
@@ -190,7 +210,7 @@ def expand_combinators(prog, d):
         key = next((k for k in COMBINATORS if c.endswith(k)), None)
         if key is None:
             continue
-        has_default = any(a[0] == "default" for a in COMBINATORS[key][1].values())
+        has_default = any(a[0] == "default" or a[0].endswith("@1") for a in COMBINATORS[key][1].values())
         if (len(t["args"]) == 3) != has_default:
             continue
         recv, fop = t["args"][0], t["args"][-1]
@@ -200,7 +220,13 @@ def expand_combinators(prog, d):
         fdef = _closure_def(blocks, fop)
         if fdef is None or (fdef[0] == "closure" and fdef[1] not in prog.fns):
             continue
+        fdef1, fop1 = fdef, fop
         enum, acts = COMBINATORS[key]
+        fdef2 = None
+        if any(a[0].endswith("@1") for a in acts.values()):
+            fdef2 = _closure_def(blocks, default_op)
+            if fdef2 is None or fdef2[1] not in prog.fns:
+                continue
         line = t.get("span", {}).get("l0", 0)
         span = t.get("span", {"file": "", "l0": line, "l1": line, "exp": False})
         dest, target = t["dest"], t["target"]
@@ -229,9 +255,22 @@ def expand_combinators(prog, d):
             def agg(en, var, ops):
                 return {"k": "aggregate", "kind": {"agg": "adt", "adt": en, "variant": var, "vidx": VIDX[(en, var)], "fields": ["0"] if ops else []}, "ops": ops}
 
-            def call_f(args_ops, then_stmt, direct=False):
+            def call_f(args_ops, then_stmt, direct=False, second=False):
                 """call the closure / fn with the given operands; result local returned; the arm block is split.
                 direct: the call's result is the combinator's result (the inliner can then thread a following `?`)"""
+                fdef, fop = (fdef2, default_op) if second else (fdef1, fop1)
+                ctor = _variant_ctor(prog, fdef) if fdef[0] == "fn" else None
+                if ctor is not None:
+                    # `.map(Ok)` / `.map(RecordValue::Integer)`: the constructor is a literal of that variant
+                    en, var, vidx, fields = ctor
+                    lit = {"k": "aggregate", "kind": {"agg": "adt", "adt": en, "variant": var, "vidx": vidx, "fields": fields[:len(args_ops)] or ["0"]}, "ops": args_ops}
+                    if direct and not dest["proj"]:
+                        nb["stmts"].append({"place": dest, "rv": lit, "line": line})
+                        return
+                    res = new_local("?")
+                    nb["stmts"].append({"place": {"local": res, "proj": []}, "rv": lit, "line": line})
+                    nb["stmts"].append({"place": dest, "rv": then_stmt(res), "line": line})
+                    return
                 if direct and not dest["proj"]:
                     if fdef[0] == "closure":
                         tup = new_local("(?,)")
@@ -261,6 +300,10 @@ def expand_combinators(prog, d):
                 call_f([{"k": "move", "place": pay}], lambda r: {"k": "use", "op": {"k": "move", "place": {"local": r, "proj": []}}}, direct=True)
             elif kind == "call0":
                 call_f([], lambda r: {"k": "use", "op": {"k": "move", "place": {"local": r, "proj": []}}}, direct=True)
+            elif kind == "call0@1":
+                call_f([], lambda r: {"k": "use", "op": {"k": "move", "place": {"local": r, "proj": []}}}, direct=True, second=True)
+            elif kind == "call@1":
+                call_f([{"k": "move", "place": pay}], lambda r: {"k": "use", "op": {"k": "move", "place": {"local": r, "proj": []}}}, direct=True, second=True)
             elif kind == "wrapcall0":
                 call_f([], lambda r, act=act: agg(act[1], act[2], [{"k": "move", "place": {"local": r, "proj": []}}]))
             elif kind == "keep":
@@ -400,6 +443,8 @@ def thread_known_discriminants(prog, d, max_new=400):
                 ty = d["locals"][x]["ty"] if x < len(d["locals"]) else ""
                 if ty.startswith("std::result::Result<") and (c.endswith("::from_residual") or prog.is_always_err(c)):
                     vidx = 1
+                elif ty.startswith("std::option::Option<") and c.endswith("::from_residual"):
+                    vidx = 0
             else:
                 for st in reversed(b["stmts"]):
                     if st["place"]["local"] == x:
